@@ -302,7 +302,7 @@ var c02Snippets = []string{
 }
 
 func runC02(r *core.Run) {
-	r.SetRule("each case runs twice on fresh VMs, optimizer off (reference) and on: generated programs of every profile (Load + Call main.main), operator/literal mutations of them, hand-written locals-heavy snippets, a table of x OP literal / literal OP x / x OP= literal functions per numeric type over boundary operands (the identities a strength reduction would use), stores of untyped constants into typed elements through every storage form, concatenations of string literals next to literals spelled like their value, histories in which one VM compiles twice (a later Eval or a second Load that declares a constant, function or type again) and every string literal of /repo/*_test.go (harvested at run time) as Eval input. non-trivial = executed at least one instruction and at least one fused opcode in the optimized run; distinct by source text")
+	r.SetRule("each case runs twice on fresh VMs, optimizer off (reference) and on: generated programs of every profile (Load + Call main.main), operator/literal mutations of them, hand-written locals-heavy snippets, a table of x OP literal / literal OP x / x OP= literal functions per numeric type over boundary operands (the identities a strength reduction would use), stores of untyped constants into typed elements through every storage form, concatenations of string literals next to literals spelled like their value, failing operations whose parts stand on different lines, histories in which one VM compiles twice (a later Eval or a second Load that declares a constant, function or type again) and every string literal of /repo/*_test.go (harvested at run time) as Eval input. non-trivial = executed at least one instruction and at least one fused opcode in the optimized run; distinct by source text")
 	r.Assume("the unoptimized compilation (one instruction per tree node) is the reference semantics; differences the two modes share are C01's business")
 	perProfile := r.N(60, 1500)
 	nm := 1 // mutants per program
@@ -347,6 +347,9 @@ func runC02(r *core.Run) {
 	r.Count("constant_store_snippets", len(st))
 	for _, s := range c02LiteralSnippets() {
 		cases = append(cases, c02Case{Kind: "eval", Src: s, Tag: "literal_lookalikes"})
+	}
+	for _, s := range c02SplitCallSnippets() {
+		cases = append(cases, c02Case{Kind: "eval", Src: s})
 	}
 	hs := c02Histories()
 	cases = append(cases, hs...)
